@@ -52,23 +52,6 @@ theorem plain_builder_is_withCol (env : Env) (f : Format) (hf : f ≠ .bad) (t :
     runBuilder env ("With" ++ f.goName) t name fp tp sub = some (.ok (withCol t name f .none)) := by
   cases f <;> first | exact absurd rfl hf | rfl
 
-/-- `WithMapped<Format>(name, rawtype)`, for each of the eight formats that have one, is
-    `withCol t name f rawtype` (with the regenerated cast tables: `cast.To(T, nil)` is nil or fails). -/
-theorem mapped_builder_is_withCol (ext : Ext) (f : Format) (hf : f ≠ .bad) (hh : f ≠ .hidden) (t : Tmpl)
-    (name : Bytes) (fp : Format) (typ : Ty) (sub : Tmpl) :
-    runBuilder ⟨genTables, ext⟩ ("WithMapped" ++ f.goName) t name fp typ sub = some (.ok (withCol t name f typ)) := by
-  cases f <;> first | exact absurd rfl hf | exact absurd rfl hh |
-    (show (some (match newValue ⟨genTables, ext⟩ .nil _ typ with
-        | .ok c => Outcome.ok (upsert t name c) | .err e => .err e | .panic s => .panic s)) = _
-     rw [LineAccept.gen_newValue_nil]; rfl)
-
-/-- `With(name, format, rawtype)` is `withCol t name format rawtype`. -/
-theorem with_is_withCol (ext : Ext) (t : Tmpl) (name : Bytes) (f : Format) (typ : Ty) (sub : Tmpl) :
-    runBuilder ⟨genTables, ext⟩ "With" t name f typ sub = some (.ok (withCol t name f typ)) := by
-  show (some (match newValue ⟨genTables, ext⟩ .nil f typ with
-      | .ok c => Outcome.ok (upsert t name c) | .err e => .err e | .panic s => .panic s)) = _
-  rw [LineAccept.gen_newValue_nil]; rfl
-
 /-- `WithRow(name, rowt)` is `withRow env t name sub`: a clone of `rowt`'s prototype, made at the call. -/
 theorem withRow_is_withRow (env : Env) (t : Tmpl) (name : Bytes) (fp : Format) (tp : Ty) (sub : Tmpl) :
     runBuilder env "WithRow" t name fp tp sub = some (withRow env t name sub) := by
